@@ -19,6 +19,7 @@ import (
 	"fmt"
 	"os"
 	"path"
+	"path/filepath"
 	"sort"
 	"strconv"
 	"strings"
@@ -56,6 +57,23 @@ func flatSorted(m map[string]string) []string {
 		r = append(r, k, m[k])
 	}
 	return r
+}
+
+func isIdent(k string) bool {
+	if k == "" {
+		return false
+	}
+	for i := 0; i < len(k); i++ {
+		c := k[i]
+		if !(c == '_' || (c >= 'a' && c <= 'z') || (c >= 'A' && c <= 'Z') || (i > 0 && c >= '0' && c <= '9')) {
+			return false
+		}
+	}
+	switch strings.ToLower(k) {
+	case "select", "from", "where", "limit", "offset", "position", "and", "or", "not", "like", "contains", "prefix", "suffix", "range", "partition", "partitions", "pipe", "pipes", "show", "create", "delete", "describe", "truncate", "dryrun", "before", "maxsize", "minsize", "maxdbsize":
+		return false
+	}
+	return true
 }
 
 func sortedKeys(m map[string]string) []string {
@@ -458,6 +476,17 @@ type identCase struct {
 	Texts  []string            `json:"texts_hex"`         // the sequence of raw tag texts given to GetOrCreateJournal
 	Sets   []map[string]string `json:"sets,omitempty"`    // the generator's tag sets …
 	SetIdx []int               `json:"set_idx,omitempty"` // … and which of them each text spells (-1: not a spelling; oracle = the parser)
+	Fault  []bool              `json:"fault,omitempty"`   // the tag index cannot be saved during this call (a directory sits where tindex.dat.tmp is written)
+}
+
+func (c identCase) fault(i int) bool { return i < len(c.Fault) && c.Fault[i] }
+
+// withSaveFault runs f while the index file cannot be written
+func withSaveFault(dir string, f func()) {
+	tmp := filepath.Join(dir, "tindex", "tindex.dat.tmp")
+	os.MkdirAll(filepath.Join(tmp, "x"), 0755)
+	defer os.RemoveAll(tmp)
+	f()
 }
 
 func (c identCase) texts() []string {
@@ -541,6 +570,7 @@ func genIdentCase(rng *vh.Rng) identCase {
 	}
 	sets = c.Sets
 	nops := 6 + rng.Intn(14)
+	faulty := rng.Chance(1, 2)
 	for i := 0; i < nops; i++ {
 		si := rng.Intn(len(sets))
 		m := sets[si]
@@ -557,6 +587,14 @@ func genIdentCase(rng *vh.Rng) identCase {
 			}
 		}
 		c.Texts = append(c.Texts, hex.EncodeToString([]byte(t)))
+		c.Fault = append(c.Fault, false)
+		if faulty && c.SetIdx[len(c.SetIdx)-1] >= 0 && rng.Chance(1, 4) {
+			// this call meets a failing index save; the client then repeats the write (fresh spelling) without the fault
+			c.Fault[len(c.Fault)-1] = true
+			c.Texts = append(c.Texts, hex.EncodeToString([]byte(spellSet(rng, m))))
+			c.SetIdx = append(c.SetIdx, si)
+			c.Fault = append(c.Fault, false)
+		}
 	}
 	return c
 }
@@ -574,7 +612,15 @@ func runIdentCase(c identCase, sec *vh.Section) {
 	lines := []string{"reset"}
 	maps := make([]map[string]string, len(texts))
 	for i, t := range texts {
-		src, _, err := srv.TIndex.GetOrCreateJournal(t)
+		var src string
+		var err error
+		call := func() { src, _, err = srv.TIndex.GetOrCreateJournal(t) }
+		if c.fault(i) {
+			withSaveFault(srv.Dir, call)
+			res.Dist(sec, "save-fault")
+		} else {
+			call()
+		}
 		m, perr := c.denotes(i)
 		switch {
 		case err == nil:
@@ -588,10 +634,16 @@ func runIdentCase(c identCase, sec *vh.Section) {
 			impls[i] = "badtags"
 		case len(m) == 0:
 			impls[i] = "empty"
+		case c.fault(i):
+			impls[i] = "savefailed"
 		default:
 			impls[i] = "other-error:" + err.Error()
 		}
-		lines = append(lines, "goc "+hx(t)+" 1")
+		if c.fault(i) {
+			lines = append(lines, "gocf "+hx(t)+" 1")
+		} else {
+			lines = append(lines, "goc "+hx(t)+" 1")
+		}
 		res.Dist(sec, strings.Fields(impls[i])[0])
 	}
 	for _, t := range texts {
@@ -616,6 +668,17 @@ func runIdentCase(c identCase, sec *vh.Section) {
 	for i := range texts {
 		acc := strings.HasPrefix(impls[i], "ok ")
 		m, perr := c.denotes(i)
+		if impls[i] == "savefailed" {
+			had := false
+			for j := 0; j < i; j++ {
+				if maps[j] != nil && perr == nil && kvstring.MapsEquals(maps[j], m) {
+					had = true
+				}
+			}
+			if !had {
+				continue // refusing the first write of a new set while the index cannot be saved is legitimate
+			}
+		}
 		if acc != (perr == nil && len(m) > 0) {
 			f := vh.SpecFailure{Section: "identity", Kind: "acceptance", Input: c, Impl: impls[i], Spec: fmt.Sprintf("accepted=%v", perr == nil && len(m) > 0), ImplEqModel: eq,
 				What: "a tag text is accepted as a partition identity exactly when it parses to a non-empty set (op " + strconv.Itoa(i) + ")"}
@@ -646,6 +709,70 @@ func runIdentCase(c identCase, sec *vh.Section) {
 				}
 				res.SpecFail(f)
 			}
+		}
+	}
+	// every acknowledged partition must be selectable: by an empty FROM, by FROM {its tags} and by an expression over its tags
+	visitIDs := func(src *lql.Source) map[int]bool {
+		got := map[int]bool{}
+		srv.TIndex.Visit(src, func(_ tag.Set, jn string) bool {
+			if d, ok := dense[jn]; ok {
+				got[d] = true
+			} else {
+				got[-1] = true
+			}
+			return true
+		}, 0)
+		return got
+	}
+	all := visitIDs(nil)
+	for i := range texts {
+		if maps[i] == nil {
+			continue
+		}
+		id, _ := strconv.Atoi(strings.TrimPrefix(impls[i], "ok "))
+		miss := ""
+		if !all[id] {
+			miss = "an empty FROM"
+		} else if i < len(c.SetIdx) && c.SetIdx[i] >= 0 && safest == "1" {
+			set := c.Sets[c.SetIdx[i]]
+			if src, perr := lql.ParseSource("{" + string(tagLine(set)) + "}"); perr == nil && !visitIDs(src)[id] {
+				miss = "FROM {" + string(tagLine(set)) + "}"
+			}
+			var conds []string
+			simple := true
+			for k, v := range set {
+				simple = simple && isIdent(k)
+				conds = append(conds, k+"="+strconv.Quote(v))
+			}
+			sort.Strings(conds)
+			if simple && miss == "" {
+				if src, perr := lql.ParseSource(strings.Join(conds, " and ")); perr == nil && !visitIDs(src)[id] {
+					miss = "FROM " + strings.Join(conds, " and ")
+				}
+			}
+		}
+		if miss != "" {
+			res.SpecFail(vh.SpecFailure{Section: "identity", Kind: "acknowledged-partition-not-selectable", Input: c, Impl: fmt.Sprintf("%q→%s is not visited by %s", texts[i], impls[i], miss), Spec: "visited",
+				What: "a partition that was handed out (an acknowledged write) is not selected by an empty FROM / FROM {its tags} / an expression over its tags"})
+			break
+		}
+	}
+	lines2 := append(append([]string{}, lines[:1+len(texts)]...), "visit none")
+	if outs2, err := vh.Batch(args.Driver, lines2); err == nil {
+		var ids []string
+		for d := range all {
+			if d >= 0 {
+				ids = append(ids, strconv.Itoa(d))
+			} else {
+				ids = append(ids, "u")
+			}
+		}
+		impl := idsOf(ids)
+		if all[-1] {
+			impl += " u"
+		}
+		if m := kvField(outs2[len(outs2)-1], "model"); m != impl && eq {
+			res.Mismatch(vh.Mismatch{Section: "identity", Function: "tindex.Visit(nil) after the sequence", Input: c, Impl: impl, Model: outs2[len(outs2)-1]})
 		}
 	}
 	// the index holds one partition per distinct id
@@ -716,6 +843,7 @@ func parallel(n, workers int, f func(i int)) {
 type selCase struct {
 	Partitions []map[string]string `json:"partitions"`
 	Sources    []string            `json:"sources"`
+	FaultFirst []int               `json:"fault_first,omitempty"` // partitions whose first write meets a failing index save and is repeated
 }
 
 func genSelCase(rng *vh.Rng) selCase {
@@ -743,6 +871,9 @@ func genSelCase(rng *vh.Rng) selCase {
 			c.Partitions = append(c.Partitions, sup)
 			c.Sources = append(c.Sources, "{"+spellSet(rng, p)+"}") // exactly an existing partition's set
 		}
+	}
+	if rng.Chance(1, 3) {
+		c.FaultFirst = append(c.FaultFirst, rng.Intn(len(c.Partitions)))
 	}
 	for k := 5 + rng.Intn(6); k > 0; k-- {
 		if rng.Chance(1, 3) {
@@ -792,14 +923,32 @@ func runSelCase(c selCase, sec *vh.Section) {
 	defer srv.Stop()
 	ctx := context.Background()
 	lines := []string{"reset"}
+	nExtra := 0 // model lines of refused first writes
 	srcToIdx := map[string]int{}
 	for i, p := range c.Partitions {
 		t := string(tagLine(p))
 		var wr api.WriteResult
-		err := srv.Client.Write(ctx, t, "", []*api.LogEvent{{Timestamp: int64(i + 1), Message: strconv.Itoa(i)}}, &wr)
-		if err == nil {
-			err = wr.Err
+		write := func() error {
+			err := srv.Client.Write(ctx, t, "", []*api.LogEvent{{Timestamp: int64(i + 1), Message: strconv.Itoa(i)}}, &wr)
+			if err == nil {
+				err = wr.Err
+			}
+			return err
 		}
+		for _, fi := range c.FaultFirst {
+			if fi == i {
+				// the first write of this new tag set arrives while the tag index cannot be saved: it may be refused; the
+				// client repeats it after the trouble is over
+				var ferr error
+				withSaveFault(srv.Dir, func() { ferr = write() })
+				res.Dist(sec, fmt.Sprintf("save-fault:refused=%v", ferr != nil))
+				if ferr != nil {
+					lines = append(lines, "gocf "+hx(t)+" 1")
+					nExtra++
+				}
+			}
+		}
+		err := write()
 		if err != nil {
 			res.Note("selection: write %q failed: %v", t, err)
 			return
@@ -878,7 +1027,7 @@ func runSelCase(c selCase, sec *vh.Section) {
 	if derr != nil {
 		res.Fatal(args.Out, "driver: %v", derr)
 	}
-	base := 1 + len(c.Partitions)
+	base := 1 + len(c.Partitions) + nExtra
 	for i, x := range qs {
 		ans := outs[base+i]
 		model, spec := kvField(ans, "model"), kvField(ans, "spec")
